@@ -38,17 +38,27 @@ def pass_specs(thorough, rnd):
     return specs
 
 
-def apply_spec(spec, c):
+_OBJECTS = {}
+
+
+def apply_spec(spec, c, reuse=False):
+    """reuse=True keeps one transformer object per spec for the whole process (a pass object
+    must be reusable: applying it to one circuit must not influence the next application)."""
     if spec.startswith("cleanup("):
         return cleanup(c, use_heavy=spec == "cleanup(True)")
-    obj = eval(spec, dict(NS))  # noqa: S307 - fixed vocabulary above
+    if reuse:
+        if spec not in _OBJECTS:
+            _OBJECTS[spec] = eval(spec, dict(NS))  # noqa: S307
+        obj = _OBJECTS[spec]
+    else:
+        obj = eval(spec, dict(NS))  # noqa: S307 - fixed vocabulary above
     if isinstance(obj, list):
         return Transformer.apply_transformers(c, obj)
     return obj.transform(c)
 
 
 APPLY_SRC = (
-    "def apply_spec(spec, c):\n"
+    "def apply_spec(spec, c, reuse=False):\n"
     "    if spec.startswith('cleanup('):\n"
     "        return cleanup(c, use_heavy=spec == 'cleanup(True)')\n"
     "    obj = eval(spec)\n"
